@@ -141,28 +141,38 @@ Record binv (tbl : list (bdd * nat)) (trees : list bdd) : Prop := {
   bi_bwd : forall k i, nth_error trees i = Some k -> blookup k tbl = Some i
 }.
 
+(* the (regular) nodes below a pointer, with repetitions *)
+Fixpoint subnodes (p : bdd) : list bdd :=
+  match p with BN _ v l h => BN false v l h :: subnodes l ++ subnodes h | _ => [] end.
+Definition closed (trees : list bdd) : Prop :=
+  forall k, In k trees -> forall k', In k' (subnodes k) -> In k' trees.
+
 Lemma ser_bdd_inv p : forall st trees,
-  unfold_rows (snd st) [] = Some trees -> binv (fst st) trees ->
+  unfold_rows (snd st) [] = Some trees -> binv (fst st) trees -> closed trees ->
   exists trees' ext more,
     unfold_rows (snd (snd (ser_bdd p st))) [] = Some trees' /\
     binv (fst (snd (ser_bdd p st))) trees' /\
     trees' = trees ++ ext /\
     snd (snd (ser_bdd p st)) = snd st ++ more /\
     ptr_tree trees' (fst (ser_bdd p st)) = Some p /\
-    (forall k, blookup k (fst st) = None -> blookup k (fst (snd (ser_bdd p st))) <> None -> bsize k <= bsize p).
+    (forall k, blookup k (fst st) = None -> blookup k (fst (snd (ser_bdd p st))) <> None -> bsize k <= bsize p) /\
+    closed trees' /\
+    (forall k, In k (subnodes p) -> In k trees') /\
+    (forall k, In k ext -> In k (subnodes p)).
 Proof.
-  induction p as [| |c v lo IHlo hi IHhi]; intros st trees Hu Hinv.
-  - exists trees, [], []. cbn. rewrite !app_nil_r. repeat split; try assumption; try apply Hinv.
-    intros k H1 H2. congruence.
-  - exists trees, [], []. cbn. rewrite !app_nil_r. repeat split; try assumption; try apply Hinv.
-    intros k H1 H2. congruence.
+  induction p as [| |c v lo IHlo hi IHhi]; intros st trees Hu Hinv Hcl.
+  - exists trees, [], []. cbn. rewrite !app_nil_r. repeat split; try assumption; try apply Hinv; try contradiction.
+  - exists trees, [], []. cbn. rewrite !app_nil_r. repeat split; try assumption; try apply Hinv; try contradiction.
   - cbn [ser_bdd]. destruct (blookup (BN false v lo hi) (fst st)) as [i|] eqn:Elk.
-    + exists trees, [], []. cbn [fst snd]. rewrite !app_nil_r. repeat split; try assumption; try apply Hinv.
-      * cbn [ptr_tree]. rewrite (bi_fwd _ _ Hinv _ _ Elk). reflexivity.
-      * intros k H1 H2. congruence.
-    + destruct (IHlo st trees Hu Hinv) as (t1 & e1 & m1 & Hu1 & Hinv1 & Ht1 & Hr1 & Hp1 & Hs1).
+    + exists trees, [], []. cbn [fst snd]. rewrite !app_nil_r.
+      assert (Hin : In (BN false v lo hi) trees) by (eapply nth_error_In, (bi_fwd _ _ Hinv _ _ Elk)).
+      split; [exact Hu|]. split; [exact Hinv|]. split; [reflexivity|]. split; [reflexivity|].
+      split; [cbn [ptr_tree]; rewrite (bi_fwd _ _ Hinv _ _ Elk); reflexivity|].
+      split; [intros k H1 H2; congruence|]. split; [exact Hcl|].
+      split; [intros k Hk; exact (Hcl _ Hin k Hk)|intros k []].
+    + destruct (IHlo st trees Hu Hinv Hcl) as (t1 & e1 & m1 & Hu1 & Hinv1 & Ht1 & Hr1 & Hp1 & Hs1 & Hc1 & Hn1 & Hx1).
       destruct (ser_bdd lo st) as [l st1] eqn:E1. cbn [fst snd] in Hu1, Hinv1, Hr1, Hp1, Hs1.
-      destruct (IHhi st1 t1 Hu1 Hinv1) as (t2 & e2 & m2 & Hu2 & Hinv2 & Ht2 & Hr2 & Hp2 & Hs2).
+      destruct (IHhi st1 t1 Hu1 Hinv1 Hc1) as (t2 & e2 & m2 & Hu2 & Hinv2 & Ht2 & Hr2 & Hp2 & Hs2 & Hc2 & Hn2 & Hx2).
       destruct (ser_bdd hi st1) as [h st2] eqn:E2. cbn [fst snd] in Hu2, Hinv2, Hr2, Hp2, Hs2.
       cbn [fst snd].
       assert (Hlen : length (snd st2) = length t2) by (symmetry; apply unfold_rows_length, Hu2).
@@ -176,7 +186,11 @@ Proof.
         - assert (B : bsize (BN false v lo hi) <= bsize hi) by (apply Hs2; [exact E'|congruence]).
           cbn in B. lia. }
       exists (t2 ++ [BN false v lo hi]), (e1 ++ e2 ++ [BN false v lo hi]), (m1 ++ m2 ++ [(v, l, h)]).
-      split; [|split; [|split; [|split; [|split]]]].
+      assert (Hsub : forall k, In k (subnodes (BN c v lo hi)) -> In k (t2 ++ [BN false v lo hi])).
+      { intros k Hk. cbn [subnodes] in Hk. apply in_app_iff. destruct Hk as [<-|Hk]; [right; left; reflexivity|].
+        left. apply in_app_iff in Hk. destruct Hk as [Hk|Hk]; [|apply Hn2, Hk].
+        rewrite Ht2. apply in_app_iff. left. apply Hn1, Hk. }
+      split; [|split; [|split; [|split; [|split; [|split; [|split; [|split]]]]]]].
       * rewrite unfold_rows_app, Hu2. cbn [unfold_rows]. rewrite Hpl, Hp2. reflexivity.
       * constructor.
         -- intros k i. rewrite blookup_cons. destruct (bdd_eqb k (BN false v lo hi)) eqn:Ek.
@@ -202,7 +216,18 @@ Proof.
         -- destruct (blookup k (fst st1)) eqn:E'.
            ++ assert (B : bsize k <= bsize lo) by (apply Hs1; [exact Hk0|congruence]). cbn. lia.
            ++ assert (B : bsize k <= bsize hi) by (apply Hs2; [exact E'|exact Hk]). cbn. lia.
+      * intros k Hk k' Hk'. apply in_app_iff in Hk. destruct Hk as [Hk|[<-|[]]].
+        -- apply in_app_iff. left. exact (Hc2 _ Hk _ Hk').
+        -- apply Hsub. exact Hk'.
+      * exact Hsub.
+      * intros k Hk. cbn [subnodes]. apply in_app_iff in Hk. destruct Hk as [Hk|Hk].
+        -- right. apply in_app_iff. left. apply Hx1, Hk.
+        -- apply in_app_iff in Hk. destruct Hk as [Hk|[<-|[]]]; [|left; reflexivity].
+           right. apply in_app_iff. right. apply Hx2, Hk.
 Qed.
+
+Lemma closed_nil : closed [].
+Proof. intros k []. Qed.
 
 Lemma binv_nil : binv [] [].
 Proof. constructor; intros k i H; [discriminate|destruct i; discriminate]. Qed.
@@ -212,7 +237,7 @@ Theorem ser_bdd_iso p :
   unfold_table (fst (bdd_serialize p)) (snd (bdd_serialize p)) = Some p.
 Proof.
   unfold bdd_serialize, unfold_table.
-  destruct (ser_bdd_inv p ([], []) [] eq_refl binv_nil) as (t & e & m & Hu & _ & _ & _ & Hp & _).
+  destruct (ser_bdd_inv p ([], []) [] eq_refl binv_nil closed_nil) as (t & e & m & Hu & _ & _ & _ & Hp & _).
   destruct (ser_bdd p ([], [])) as [r st]. cbn [fst snd] in *. rewrite Hu. exact Hp.
 Qed.
 
@@ -225,7 +250,7 @@ Proof. rewrite eval_table_unfold, ser_bdd_iso. reflexivity. Qed.
 Theorem ser_bdd_ordered p : rows_ordered (fst (bdd_serialize p)) = true.
 Proof.
   unfold bdd_serialize, rows_ordered.
-  destruct (ser_bdd_inv p ([], []) [] eq_refl binv_nil) as (t & e & m & Hu & _).
+  destruct (ser_bdd_inv p ([], []) [] eq_refl binv_nil closed_nil) as (t & e & m & Hu & _).
   destruct (ser_bdd p ([], [])) as [r st]. cbn [fst snd] in *.
   exact (unfold_rows_ordered _ _ _ Hu).
 Qed.
@@ -242,7 +267,7 @@ Qed.
 Theorem ser_bdd_nodup p : NoDup (fst (bdd_serialize p)).
 Proof.
   unfold bdd_serialize.
-  destruct (ser_bdd_inv p ([], []) [] eq_refl binv_nil) as (t & e & m & Hu & Hinv & _).
+  destruct (ser_bdd_inv p ([], []) [] eq_refl binv_nil closed_nil) as (t & e & m & Hu & Hinv & _).
   destruct (ser_bdd p ([], [])) as [r st]. cbn [fst snd] in *.
   destruct (unfold_rows_spec _ _ _ Hu) as (new & Hnew & _ & Hrows). cbn [app length] in Hnew, Hrows. subst new.
   apply NoDup_nth_error_inj. intros i j [[v l] h] Hi Hj.
@@ -252,9 +277,23 @@ Proof.
   pose proof (bi_bwd _ _ Hinv _ _ H3) as B1. pose proof (bi_bwd _ _ Hinv _ _ H3') as B2. congruence.
 Qed.
 
-(* one row per distinct node: the rows are exactly the distinct regular sub-nodes of p *)
-Fixpoint subnodes (p : bdd) : list bdd :=
-  match p with BN _ v l h => BN false v l h :: subnodes l ++ subnodes h | _ => [] end.
+
+(* the table holds exactly the nodes below p -- nothing else, none missing: its rows, read
+   back as trees, are the regular sub-nodes of p, each once *)
+Theorem ser_bdd_nodes p :
+  exists trees, unfold_rows (fst (bdd_serialize p)) [] = Some trees /\
+    length trees = length (fst (bdd_serialize p)) /\ NoDup trees /\
+    forall k, In k trees <-> In k (subnodes p).
+Proof.
+  unfold bdd_serialize.
+  destruct (ser_bdd_inv p ([], []) [] eq_refl binv_nil closed_nil)
+    as (t & e & m & Hu & Hinv & Ht & _ & _ & _ & _ & Hn & Hx).
+  destruct (ser_bdd p ([], [])) as [r st]. cbn [fst snd app] in *. subst e.
+  exists t. split; [exact Hu|]. split; [apply unfold_rows_length, Hu|]. split.
+  - apply NoDup_nth_error_inj. intros i j k Hi Hj.
+    pose proof (bi_bwd _ _ Hinv _ _ Hi). pose proof (bi_bwd _ _ Hinv _ _ Hj). congruence.
+  - intros k. split; [apply Hx|apply Hn].
+Qed.
 
 (* ==================================================================================== *)
 (* VTreeSerializer *)
